@@ -14,22 +14,22 @@ def forward_formulas(fx):
         return None
     rd = sym.Reader(fx, call_hook=vec.hook)
     sts = rd.run(f)
-    if len(sts) != 1:
+    full = [s_ for s_ in sts if all(isinstance(s_.fields.get(('loc', 'ecef[%d]' % k)), sp.Basic) for k in range(3))]
+    if len(full) != 1:
         return None
-    st = sts[0]
+    st = full[0]
+    others = [s_ for s_ in sts if s_ is not st]      # paths that return without evaluating the formulas (caches, shortcuts): judged by the caller
     comps = [st.fields.get(('loc', 'ecef[%d]' % k)) for k in range(3)]
-    if any(not isinstance(c, sp.Basic) for c in comps):
-        return None
-    # the returned object must be the vector that was filled
+    # the returned object must be the vector that was filled (on the path that fills it)
     rets = [x for x in walk(f['body']) if x.get('k') == 'Return']
-    if len(rets) != 1 or pp(strip_casts(rets[0]['e'])) not in ('ecef',):
+    if not rets or pp(strip_casts(rets[-1]['e'])) not in ('ecef',):
         return None
     names = {s.name: s for c in comps for s in c.free_symbols}
     need = ['geodeticCoordinates.latitude', 'geodeticCoordinates.longitude', 'geodeticCoordinates.altitude', 'this.ellipsoid_.a', 'this.ellipsoid_.e2']
     if any(n not in names for n in need[:3]):
         return None
     lat, lon, alt, a, e2 = [names.get(n, sp.Symbol(n, real=True)) for n in need]
-    return {'fn': f, 'X': comps[0], 'Y': comps[1], 'Z': comps[2], 'lat': lat, 'lon': lon, 'alt': alt, 'a': a, 'e2': e2}
+    return {'fn': f, 'X': comps[0], 'Y': comps[1], 'Z': comps[2], 'lat': lat, 'lon': lon, 'alt': alt, 'a': a, 'e2': e2, 'others': others, 'full': st}
 
 
 def enu_hook(rd, e, st, ctx):
